@@ -706,6 +706,9 @@ def run(ctx: Ctx):
     from harness.props import C03_hard
 
     C03_hard.run_hard(ctx)
+    from harness.props import C03_hard3
+
+    C03_hard3.run_hard3(ctx)
 
     # ---- something no longer checks but the oracle found no failing input: search, then report
     if (disagree or cert_disagree or gate_bad or ctx.broken) and not ctx.violations:
@@ -742,6 +745,26 @@ def run(ctx: Ctx):
 
 def replay(obj):
     kind = obj.get("kind")
+    if kind == "inplace":
+        from harness.props import C03_hard3 as H3
+
+        probs = H3.check_inplace({"c": obj["c"], "A": obj["A"], "b": obj["b"], "minimize": obj.get("minimize", True), "max_iter": None})
+        print("\n".join(probs) or "ok")
+        return 1 if probs else 0
+    if kind == "extreme":
+        from harness.props import C03_hard3 as H3
+
+        conv = lambda v: float(v) if isinstance(v, str) else v
+        case = {"c": [conv(v) for v in obj["c"]], "A": [[conv(a) for a in r] for r in obj["A"]], "b": [conv(v) for v in obj["b"]],
+                "minimize": obj.get("minimize", True), "max_iter": None, "family": "extreme-replay"}
+        empty = any(v != v or v == float("-inf") for v in case["b"]) or any(a != a for r in case["A"] for a in r)
+        ref = None
+        if not empty and any(v == float("inf") for v in case["b"]):
+            keep = [i for i, v in enumerate(case["b"]) if v != float("inf")]
+            ref = {"c": case["c"], "A": [case["A"][i] for i in keep] or [[0] * len(case["c"])], "b": [case["b"][i] for i in keep] or [0]}
+        out, orc, bad = H3._work_extreme((case, "empty" if empty else "oracle", ref))
+        print("solve_lp:", out); print("judgement:", bad or "ok")
+        return 1 if bad else 0
     if kind in ("types", "alias"):
         from harness.props import C03_hard as H
 
